@@ -335,6 +335,8 @@ def run_property(mod, tier="quick", replay_path=None):
     # ---------------------------------------------------------------- evidence
     proof_ok = total > 0 and discharged == total and not undecided and not errors
     level = getattr(mod, "LEVEL", "proof")
+    if level == "proof" and not getattr(mod, "FUNCTIONS", []) and not getattr(mod, "EXTRA", []):
+        level = "exploration"   # nothing under contract yet: the bounded stand-ins alone are an exploration, never a proof
     cov = {
         "obligations": total, "discharged": discharged,
         "checker_cmd": f"./check {pid} --tier {tier}",
